@@ -129,9 +129,9 @@ def run(P, R):
         R.check(r2, got_sel == want, '%s selects %s' % (cname, want), 'selection|%s' % cname, u.loc(),
                 '%s.get_supvisors_instance selects %s; the %s strategy requires %s' % (cname, got_sel, m, want))
     u = P.unit('LocalStrategy.get_supvisors_instance')
-    nones = [facts for v, facts, n in returns(u) if isinstance(v, ast.Constant) and v.value is None]
-    ok = any({tuple(f) for f in fs} & {('local_identifier in identifiers', False),
-                                       ('self.supvisors.mapper.local_identifier in identifiers', False)} for fs in nones)
+    # the only non-None result is returned under the fact "the local identifier is a candidate"
+    some = [n for v, facts, n in returns(u) if v is not None and not (isinstance(v, ast.Constant) and v.value is None)]
+    ok = len(some) == 1 and ('self.supvisors.mapper.local_identifier in identifiers', True) in factmap(u).closed(some[0])
     R.check(r2, ok, 'LOCAL places nothing when the local instance is not a candidate', 'selection|LocalStrategy|candidate',
             u.loc(), 'LocalStrategy does not return None when the local identifier is not among the candidates')
     u = P.unit('AbstractStartingStrategy.is_loading_valid')
